@@ -80,7 +80,8 @@ static int c15_main(int argc,char **argv){
       while(!eos&&rc==0){
         long todo=total-done,i; int c;
         if(todo>8192)todo=8192;
-        if(todo>0){ float **b=vorbis_analysis_buffer(&vd,todo); for(c=0;c<c15vi.channels;c++)for(i=0;i<todo;i++)b[c][i]=((int)(mk_rand()&0xffff)-32768)/40000.f; vorbis_analysis_wrote(&vd,todo); done+=todo; }
+        if(todo>0){ float **b=vorbis_analysis_buffer(&vd,todo); int quiet=(n>=3&&!strcmp(tok[2],"silence"))?1:((n>=3&&!strcmp(tok[2],"faint"))?2:0); /* silence / a -80 dB tone: every candidate packet stays tiny, a hard minimum has to pad */
+          for(c=0;c<c15vi.channels;c++)for(i=0;i<todo;i++)b[c][i]=quiet==1?0.f:(quiet==2?1e-4f*sinf((done+i)*0.06f):((int)(mk_rand()&0xffff)-32768)/40000.f); vorbis_analysis_wrote(&vd,todo); done+=todo; }
         else vorbis_analysis_wrote(&vd,0);
         while(vorbis_analysis_blockout(&vd,&vb)==1){
           vorbis_analysis(&vb,NULL); vorbis_bitrate_addblock(&vb);
